@@ -418,8 +418,18 @@ func (r *posRunner) hooks() *chain.Hooks {
 					r.report(p, fmt.Sprintf("%s|result|want-ok=%v|%s", call, out.OK, strings.ReplaceAll(why, " ", "-")), fmt.Sprintf("%s at height %d returned code %d but the statements require ok=%v (%s); log: %.200s", e.Tx, r.height, tr.Code, out.OK, why, tr.Log))
 				}
 				if out.Unjudged {
-					// governance messages are judged by C17; re-anchor without comparing
-					r.cur = r.view()
+					// governance messages are judged by C17; here only the state-derived invariants and
+					// the supply rule (moves only by a successful DAO burn) are evaluated, then re-anchor
+					after := r.view()
+					wantSupply := r.cur.Supply
+					if okGot && e.Tx.Msg == "dao_burn" {
+						wantSupply = wantSupply.Sub(sdk.NewInt(e.Tx.Amount))
+					}
+					if !after.Supply.Equal(wantSupply) {
+						r.report("C02", fmt.Sprintf("%s|supply|ok=%v", call, okGot), fmt.Sprintf("%s at height %d (code %d): supply %s -> %s, expected %s", e.Tx, r.height, tr.Code, r.cur.Supply, after.Supply, wantSupply))
+					}
+					r.invariants(call, after, nil)
+					r.cur = after
 					r.res.Transitions++
 					return
 				}
